@@ -208,6 +208,27 @@ func (f *Frame) callByContract(ns *nodeState, x *ssa.Call, fc *FuncContract, fn 
 		}
 		ex.storeLV(ns.st, lv, fresh)
 	}
+	// ghost effect: the callee logs one of its (slice) arguments to a ghost list of the function under verification
+	for _, lg := range fc.Logs {
+		gc, ok := ex.ghostLists[lg[1]]
+		if !ok {
+			ex.fail("callee %s logs to ghost list %s, which the function under verification does not declare (ghostlist)", key, lg[1])
+		}
+		av, ok := names[lg[0]]
+		if !ok {
+			ex.fail("logs %s: no such parameter of %s", lg[0], key)
+		}
+		a := ex.viewOf(ns.st, av)
+		w := ns.st[gc]
+		w2 := vc.Declare(f.prefix+"log_"+lg[1], w.Sort)
+		i := Atom("q_li", SInt)
+		sel := Select(slArr(w2), i)
+		vc.Assume(Implies(ns.reach, And(Eq(slLen(w2), addT(slLen(w), slLen(a))), Not(slNil(w2)))), "ghost log: length of the concatenation")
+		vc.Assume(Implies(ns.reach, Term{S: fmt.Sprintf("(forall ((q_li Int)) (! (and (=> (and (<= 0 q_li) (< q_li %s)) (= %s %s)) (=> (and (<= %s q_li) (< q_li %s)) (= %s %s))) :pattern (%s)))",
+			slLen(w).S, sel.S, Select(slArr(w), i).S, slLen(w).S, slLen(w2).S, sel.S, Select(slArr(a), subT(i, slLen(w))).S, sel.S), Sort: SBool}), "ghost log: elements of the concatenation")
+		ns.st[gc] = w2
+		ex.markWritten(gc, -1)
+	}
 	// results
 	res := fn.Signature.Results()
 	out := make([]Val, res.Len())
